@@ -68,13 +68,16 @@ Section Det.
   Inductive dop :=
   | DGen (n : nat)
   | DScan (n : nat) (act : K -> bool)
-  | DSaveReload.                          (* Serialize, write, read, Load: the same wallet *)
+  | DSaveReload                           (* Serialize, write, read, Load: the same wallet *)
+  | DLock | DUnlock                       (* Lock / Unlock: derivation state untouched *)
+  | DFailed.                              (* an operation that returned an error (finder error during a scan,
+                                             generate / scan on a locked wallet, invalid count): no effect *)
 
   Definition d_step (w : dwallet) (o : dop) : dwallet :=
     match o with
     | DGen n => d_generate n w
     | DScan n act => d_scan n act w
-    | DSaveReload => w
+    | DSaveReload | DLock | DUnlock | DFailed => w
     end.
   Definition d_run (ops : list dop) (w : dwallet) : dwallet := fold_left d_step ops w.
   Fixpoint d_trace (ops : list dop) (w : dwallet) : list dwallet :=
@@ -89,8 +92,11 @@ Section Det.
     match o with
     | DGen n => m + n
     | DScan n act => m + keep_num (map act (skipn m (derive_all s (m + n))))
-    | DSaveReload => m
+    | DSaveReload | DLock | DUnlock | DFailed => m
     end.
+  (* the operations that can change the derivation state *)
+  Definition d_effective (o : dop) : bool :=
+    match o with DGen _ | DScan _ _ => true | _ => false end.
   Definition d_count (s : S) (ops : list dop) : nat := fold_left (d_count_step s) ops 0.
 
   (* NewWallet with the GenerateN / ScanN options *)
@@ -104,6 +110,7 @@ End Det.
 
 Arguments d_seed {S K}. Arguments d_last {S K}. Arguments d_entries {S K}.
 Arguments DGen {K} n. Arguments DScan {K} n act. Arguments DSaveReload {K}.
+Arguments DLock {K}. Arguments DUnlock {K}. Arguments DFailed {K}. Arguments d_effective {K} o.
 
 (* ------------------------------------------------- index-derived chains *)
 Section Idx.
@@ -143,7 +150,8 @@ Section Idx.
   | IScan (n : nat) (act : K -> bool)
   | ISaveReload
   | ILock                                 (* bip44 Lock: addresses untouched, later ones derived publicly *)
-  | IUnlock.                              (* bip44 Unlock: secrets restored / synced, addresses untouched *)
+  | IUnlock                               (* bip44 Unlock: secrets restored / synced, addresses untouched *)
+  | IFailed.                              (* an operation that returned an error: no effect *)
 
   (* a failing op (chain out of range) leaves the wallet unchanged *)
   Definition i_step (w : iwallet) (o : iop) : iwallet :=
@@ -153,7 +161,10 @@ Section Idx.
     | ISaveReload => w
     | ILock => w
     | IUnlock => w
+    | IFailed => w
     end.
+  Definition i_effective (o : iop) : bool :=
+    match o with IGen _ _ | IScan _ _ => true | _ => false end.
   Definition i_run (ops : list iop) (w : iwallet) : iwallet := fold_left i_step ops w.
   Fixpoint i_trace (ops : list iop) (w : iwallet) : list iwallet :=
     match ops with
@@ -171,7 +182,7 @@ Section Idx.
 End Idx.
 
 Arguments IGen {K} j n. Arguments IScan {K} n act. Arguments ISaveReload {K}.
-Arguments ILock {K}. Arguments IUnlock {K}.
+Arguments ILock {K}. Arguments IUnlock {K}. Arguments IFailed {K}. Arguments i_effective {K} o.
 
 (* ------------------------------------------------------------ entries *)
 (* a wallet entry and its coherence: the address is the address of the public
